@@ -420,6 +420,45 @@ outer:
 	return maxElapsed, nil
 }
 
+// segmentFMP4FindPartsEnd returns the position after the last complete part (moof and mdat).
+// A recorder that is stopped abruptly can leave an incomplete part at the end of a segment.
+func segmentFMP4FindPartsEnd(r io.ReadSeeker) (int64, error) {
+	size, err := r.Seek(0, io.SeekEnd)
+	if err != nil {
+		return 0, err
+	}
+
+	buf := make([]byte, 8)
+	pos := int64(0)
+	end := int64(0)
+
+	for (pos + 8) <= size {
+		_, err = r.Seek(pos, io.SeekStart)
+		if err != nil {
+			return 0, err
+		}
+
+		_, err = io.ReadFull(r, buf)
+		if err != nil {
+			return 0, err
+		}
+
+		boxSize := int64(uint32(buf[0])<<24 | uint32(buf[1])<<16 | uint32(buf[2])<<8 | uint32(buf[3]))
+		if boxSize < 8 || (pos+boxSize) > size {
+			break
+		}
+
+		pos += boxSize
+
+		// a moof is complete only when its mdat is complete too
+		if !bytes.Equal(buf[4:], []byte{'m', 'o', 'o', 'f'}) {
+			end = pos
+		}
+	}
+
+	return end, nil
+}
+
 func segmentFMP4MuxParts(
 	r readSeekerAt,
 	startDTS time.Duration,
@@ -436,7 +475,12 @@ func segmentFMP4MuxParts(
 	var segmentDuration time.Duration
 	breakAtNextMdat := false
 
-	_, err := amp4.ReadBoxStructure(r, func(h *amp4.ReadHandle) (any, error) {
+	partsEnd, err := segmentFMP4FindPartsEnd(r)
+	if err != nil {
+		return 0, err
+	}
+
+	_, err = amp4.ReadBoxStructure(io.NewSectionReader(r, 0, partsEnd), func(h *amp4.ReadHandle) (any, error) {
 		switch h.BoxInfo.Type.String() {
 		case "moof":
 			moofOffset = h.BoxInfo.Offset
